@@ -972,22 +972,27 @@ theorem ent_loopDecide_short {b : BState} {c : PutCmd} {e : Nat} {s : List SKey}
           · simp only [Except.ok.injEq, Prod.mk.injEq] at h
             exact Or.inr (Or.inr ⟨_, _, h.1.symm⟩)
 
-/-- the worker's first `wu.space` of a put, exactly -/
+/-- the worker's first `wu.space` of a put, exactly (third case: `max_weight - weight_used` is outside `i64` and the
+    worker dies) -/
 theorem ent_workerAct_space0 {b b' : BState} {o o' : Oracle} {c : PutCmd} (hw : b.w = .space0 c)
     (h : workerAct b o = .ok (b', o')) :
     (b.g.adm.max - b.g.adm.used ≥ c.w ∧ b' = { b with w := .insert c }) ∨
-    (b.g.adm.max - b.g.adm.used < c.w ∧ ∃ e, b' = { b with w := .sampleInit c (b.g.adm.max - b.g.adm.used) e }) := by
+    (b.g.adm.max - b.g.adm.used < c.w ∧ ∃ e, b' = { b with w := .sampleInit c (b.g.adm.max - b.g.adm.used) e }) ∨
+    (b.g.adm.spaceOverflow = true ∧ b' = workerDies b) := by
   simp only [workerAct, hw] at h
   split at h
   · cases h
   · split at h
+    · simp only [Except.ok.injEq, Prod.mk.injEq] at h
+      exact Or.inr (Or.inr ⟨by assumption, h.1.symm⟩)
+    split at h
     · simp only [Except.ok.injEq, Prod.mk.injEq] at h
       exact Or.inl ⟨by assumption, h.1.symm⟩
     · rename_i hlt
       split at h
       · cases h
       · simp only [Except.ok.injEq, Prod.mk.injEq] at h
-        exact Or.inr ⟨by omega, _, h.1.symm⟩
+        exact Or.inr (Or.inl ⟨by omega, _, h.1.symm⟩)
 
 theorem ent_workerAct_sampleInit {b b' : BState} {o o' : Oracle} {c : PutCmd} {space : Int} {e : Nat}
     (hw : b.w = .sampleInit c space e) (h : workerAct b o = .ok (b', o')) :
@@ -1063,10 +1068,11 @@ theorem pressInv_worker {h : List (BState × Act)} {b b' : BState} {o o' : Oracl
   have hi' := hi.mono (b, .worker)
   by_cases h0 : ∃ c, b.w = .space0 c
   · obtain ⟨c, hw⟩ := h0
-    rcases ent_workerAct_space0 hw hs with ⟨_, rfl⟩ | ⟨hlt, e, rfl⟩
+    rcases ent_workerAct_space0 hw hs with ⟨_, rfl⟩ | ⟨hlt, e, rfl⟩ | ⟨_, rfl⟩
     · trivial
     · exact ⟨hlt, ⟨(b, .worker), List.mem_cons_self, rfl, Or.inl hw, rfl⟩,
         ⟨(b, .worker), List.mem_cons_self, rfl, hw, hlt⟩⟩
+    · trivial
   by_cases h1 : ∃ c space e, b.w = .sampleInit c space e
   · obtain ⟨c, space, e, hw⟩ := h1
     rw [hw] at hi'
@@ -1081,6 +1087,7 @@ theorem pressInv_worker {h : List (BState × Act)} {b b' : BState} {o o' : Oracl
   cases ht
   case space0Fits c hw _ _ => exact absurd ⟨c, hw⟩ h0
   case space0Sample c e hw _ => exact absurd ⟨c, hw⟩ h0
+  case space0Overflow c hw _ _ => exact absurd ⟨c, hw⟩ h0
   case initInsert c e space hw _ => exact absurd ⟨c, space, e, hw⟩ h1
   case initEmpty c e space hw => exact absurd ⟨c, space, e, hw⟩ h1
   case initReject c e space hw => exact absurd ⟨c, space, e, hw⟩ h1
